@@ -91,20 +91,22 @@ double __CPROVER_uninterpreted_hypot(double, double);
 
 static inline int wb_abs_int(int x) { return x < 0 ? -x : x; }
 
-/* ---- std::vector<T>: pre-allocated capacity WB_VEC_CAP, growth asserts the model bound ---- */
-#define WB_VEC_NEW(T) { (T *)malloc(sizeof(T) * WB_VEC_CAP), 0, WB_VEC_CAP }
+/* ---- std::vector<T>: struct with embedded typed storage of WB_CAP_<name> elements (no heap, no pointers:
+ * copies are deep like in C++, and CBMC sees typed arrays).  Growth asserts the model bound; element access
+ * asserts index < size (which std::vector leaves undefined). ---- */
+static inline size_t wb_idx(size_t i, size_t n) { WB_ASSERT(i < n, "vector index within size"); return i; }
 #define WB_VEC_SHIMS(NAME, T)                                                                           \
   static inline void NAME##_push(struct NAME *v, T x)                                                   \
-  { WB_ASSERT(v->n < v->cap, "MODEL-BOUND vector capacity"); v->data[v->n] = x; v->n = v->n + 1; }      \
+  { WB_ASSERT(v->n < WB_CAP_##NAME, "MODEL-BOUND vector capacity"); v->data[v->n] = x; v->n = v->n + 1; } \
   static inline struct NAME NAME##_new_empty(void)                                                      \
-  { struct NAME v = WB_VEC_NEW(T); return v; }
+  { struct NAME v; v.n = 0; return v; }
 
 /* content-carrying operations, scalar element types only.  The loop of insert(end(), b, e) is closed by an
  * invariant that speaks about one arbitrary slot wb_g_slot (a ghost index chosen by the harness and never
  * assigned): slots below the old size keep their value, the slot inside the appended range holds the
  * source element. */
 extern size_t wb_g_slot;
-#define WB_SAME(a, b) ((a) == (b) || ((a) != (a) && (b) != (b)))
+#define WB_SAME(a, b) (*(const unsigned long *)&(a) == *(const unsigned long *)&(b))   /* bit-identical lvalues (8-byte T) */
 #ifdef WB_NATIVE
 #define WB_LOOP_CONTRACT(x)
 #define WB_ARRAY_SET(p, n, v) do { for (size_t wb_q = 0; wb_q < (n); wb_q++) (p)[wb_q] = (v); } while (0)
@@ -114,15 +116,15 @@ extern size_t wb_g_slot;
 #endif
 #define WB_VEC_SHIMS_SCALAR(NAME, T)                                                                     \
   static inline struct NAME NAME##_new_fill(size_t cnt, T val)                                           \
-  { struct NAME v = WB_VEC_NEW(T); WB_ASSERT(cnt <= v.cap, "MODEL-BOUND vector capacity");                \
-    WB_ARRAY_SET(v.data, v.cap, val); v.n = cnt; return v; }                                             \
+  { struct NAME v; WB_ASSERT(cnt <= WB_CAP_##NAME, "MODEL-BOUND vector capacity");                       \
+    WB_ARRAY_SET(v.data, WB_CAP_##NAME, val); v.n = cnt; return v; }                                             \
   static inline void NAME##_insert_end_range(struct NAME *v, T *pos, const T *b, const T *e)             \
   { WB_ASSERT(pos == &v->data[v->n], "shim: insert() is modelled at end() only");                         \
     size_t cnt = (size_t)(e - b); size_t n0 = v->n;                                                      \
-    WB_ASSERT(cnt <= v->cap && n0 <= v->cap - cnt, "MODEL-BOUND vector capacity");                        \
+    WB_ASSERT(cnt <= WB_CAP_##NAME && n0 <= WB_CAP_##NAME - cnt, "MODEL-BOUND vector capacity");                        \
     T g0 = (wb_g_slot < n0) ? v->data[wb_g_slot] : (T)0;                                                 \
     for (size_t q = 0; q < cnt; q++)                                                                     \
-      WB_LOOP_CONTRACT(__CPROVER_assigns(q, v->n, __CPROVER_object_whole(v->data)))                      \
+      WB_LOOP_CONTRACT(__CPROVER_assigns(q, v->n, __CPROVER_object_whole(v)))                      \
       WB_LOOP_CONTRACT(__CPROVER_loop_invariant(q <= cnt && v->n == n0 + q))                             \
       WB_LOOP_CONTRACT(__CPROVER_loop_invariant(wb_g_slot < n0 ==> WB_SAME(v->data[wb_g_slot], g0)))     \
       WB_LOOP_CONTRACT(__CPROVER_loop_invariant((n0 <= wb_g_slot && wb_g_slot < n0 + q) ==> WB_SAME(v->data[wb_g_slot], b[wb_g_slot - n0]))) \
